@@ -16,3 +16,8 @@ Inductive collect_form :=
 Inductive order_form :=
 | SortedPaths        (* sorted(list(included - excluded)) *)
 | SetOrder.          (* list(included - excluded): iteration order of a set of str, chosen by the hash seed *)
+
+(** base_codemod._process_file and the pipelines' apply methods: where per-file state lives. *)
+Inductive locality_form :=
+| TaskLocal          (* locals, one fresh FileContext / transformer instance per file; nothing stored on shared objects *)
+| SharedScratch.     (* per-file state kept on an object shared by the worker threads *)
